@@ -14,6 +14,17 @@ func genC14(rt *rapid.T, params harness.GenParams) *harness.Program {
 	minPages := 65536 / ps
 	h := rapid.SliceOfN(rapid.Custom(func(t *rapid.T) harness.Item { return harness.GenItem(t, params) }), 1, params.MaxItems).Draw(rt, "H")
 	prog.Items = append(prog.Items, h...)
+	// shape: the file is completely full and a transaction with the overflow area enabled has put
+	// its metadata (overwrite pages, mapping, free list) beyond the old limit right before the resize
+	overflowShape := prog.Cfg.MaxPages > 0 && rapid.IntRange(0, 3).Draw(rt, "overflowShape") == 0
+	if overflowShape {
+		prog.Items = append(prog.Items,
+			harness.Item{Tx: &harness.Tx{Ops: []harness.Op{{K: harness.OpFill, A: 0}, {K: harness.OpWriteMany, A: 0, B: 0, C: 5}}, End: harness.EndCommit}},
+			harness.Item{Tx: &harness.Tx{Overflow: true, WALLimit: uint(rapid.SampledFrom([]int{0, 0, 2}).Draw(rt, "owal")), Ops: []harness.Op{
+				{K: harness.OpWriteMany, A: rapid.IntRange(0, 63).Draw(rt, "opick"), B: rapid.IntRange(1, 12).Draw(rt, "ocount"), C: rapid.IntRange(1, 1<<20).Draw(rt, "oseed")},
+				{K: harness.OpFreeMany, A: rapid.IntRange(0, 63).Draw(rt, "fpick"), B: rapid.IntRange(0, 3).Draw(rt, "fcount"), C: 2},
+			}, End: harness.EndCommit}})
+	}
 	nres := rapid.IntRange(1, 2).Draw(rt, "resizes")
 	cur := prog.Cfg.MaxPages
 	for i := 0; i < nres; i++ {
@@ -27,6 +38,9 @@ func genC14(rt *rapid.T, params harness.GenParams) *harness.Program {
 				base = minPages
 			}
 			newMax = base + uint(rapid.IntRange(1, 200).Draw(rt, "plus"))
+			if overflowShape && rapid.IntRange(0, 1).Draw(rt, "smallplus") == 0 {
+				newMax = base + uint(rapid.IntRange(1, 12).Draw(rt, "plus12")) // new limit inside / just behind the overflow area
+			}
 		case 3, 4: // smaller (>= 64 KiB)
 			base := cur
 			if base == 0 {
